@@ -168,6 +168,8 @@ structure MonSt where
   extClose : Bool           -- the test itself ended the connection (close / peerclose / end / protocol violation)
   ackSeen : Bool            -- the client's ack of the drain PING was sent
   late : List Nat           -- streams accepted after that ack and before the final GOAWAY appeared on the wire
+  now : Nat := 0            -- virtual time, from the sleep / unpark ops
+  drainAt : Option Nat := none   -- time of the first `drain` op
   recv : List Nat := []     -- legal stream ids whose HEADERS the server has read (hdr / hdrpark ops)
   parked : Option Nat := none   -- the reader is parked inside operateHeaders for this id
 deriving Inhabited
@@ -199,10 +201,15 @@ def monitor (m : MonSt) (fs : List String) (impl : String) : MonSt × String :=
          | some sid, some p => sid % 2 ≠ 1 || sid ≤ p.max || sid = 0
          | _, _ => false)
       | _ => false)
+    let now := m.now + (match fs with | ["sleep", ms] => ms.toNat?.getD 0 | ["unpark"] | ["end"] => 2 | _ => 0)
+    let drainAt := match fs, m.drainAt with | ["drain"], none => some m.now | _, d => d
     let ackSeen := m.ackSeen || (match fs with | ["pingack", d] => d = "0106010800030309" | _ => false)
+    -- the final GOAWAY has been triggered: the drain PING was acked, or the 5 s fallback timer (started when loopy wrote
+    -- the heads-up GOAWAY, not before the Drain call) may have fired
+    let triggered := m.ackSeen || (match m.drainAt with | some t => t + 5000 ≤ now | none => false)
     let prevIds : List Nat := match m.prev with | some p => p.streams.map (fun (e : SEntry) => e.id) | none => []
     let newIds := (c.streams.map (fun (e : SEntry) => e.id)).filter fun i => !(prevIds.contains i)
-    let late := if m.ackSeen && m.final.isNone then m.late ++ newIds else m.late
+    let late := if triggered && m.final.isNone then m.late ++ newIds else m.late
     let legal (sid : Nat) : Bool := match m.prev with | some p => sid % 2 = 1 && sid > p.max && p.st ≠ "C" && !p.eof | none => false
     let recv := match fs with
       | ["hdr", sid] | ["hdrpark", sid] => (match sid.toNat? with | some k => if legal k then m.recv ++ [k] else m.recv | none => m.recv)
@@ -232,7 +239,7 @@ def monitor (m : MonSt) (fs : List String) (impl : String) : MonSt × String :=
           c.streams.map fun e =>
             if e.id ≤ n && !(e.flags.toList.contains 'd') then
               some (s!"connection closed by the draining server while accepted stream {e.id} <= final GOAWAY id {n} is unfinished" ++
-                (if late.contains e.id then " (accepted after the PING ack, before loopy wrote the final GOAWAY)" else ""))
+                (if late.contains e.id then " (accepted after the final GOAWAY was triggered, before loopy wrote it)" else ""))
             else none
         else []
       | none => []
@@ -248,7 +255,8 @@ def monitor (m : MonSt) (fs : List String) (impl : String) : MonSt × String :=
           else none
       | none => []
     let leak : Option String := if c.leak ≠ 0 then some s!"{c.leak} goroutine(s) outlive the closed connection" else none
-    ({ prev := some c, final := final, extClose := ext, ackSeen := ackSeen, late := late, recv := recv, parked := parked },
+    ({ prev := some c, final := final, extClose := ext, ackSeen := ackSeen, late := late, recv := recv, parked := parked,
+       now := now, drainAt := drainAt },
       firstViol (v1 ++ [v3] ++ v2 ++ v4 ++ [leak]))
 
 end GrpcModel.ServerDrainSim
